@@ -136,6 +136,45 @@ def check(ctx):
             n4 += 1
             ctx.ob("R10.4", f"{f['key']}|stream-wraps-its-id|{n4 if len(news) > 1 else ''}", ok, body.loc(b2), f"MutinyStream::new({show(e)}, ..); required: an id obtained from create_stream_id in this function")
     ctx.floor("R10.4", 8)
+    # ------------------------------------------------------------------ R10.6 inputs of the live-list rebuild
+    # the live list is rebuilt as the complement of the vacant FIFO.  (a) The FIFO's order is the order ids were given back, not ascending: a rebuild that walks the
+    # snapshot sequentially (gap walk, binary search) needs it sorted first; (b) when the rebuild is also told how many streams are live, that number must be the
+    # counter AFTER this create / drop (fetch_add(1) + 1, fetch_sub(1) - 1 or a later load) -- the RMW's own answer is the count before it.
+    kr = SM + "::sync_vacant_and_used_streams"
+    fam = [f for f in fx.fns if f["key"] == kr or f["key"].startswith(kr + "::{closure#")]
+    names = [blk["term"][1].get("fname") for f in fam for blk in f["blocks"] if blk["term"][0] == "Call"]
+    if "peek_remaining" in names:
+        sorted_ = any(n and n.startswith("sort") for n in names)
+        order_free = any(n in ("contains", "any") for n in names) and "binary_search" not in names and not any(n == "next" for n in names)
+        ctx.ob("R10.6", f"{kr}|vacant-snapshot-sorted-or-order-free", sorted_ or order_free, f"{fam[0]['file']}:{fam[0]['line']}",
+               "the vacant-id snapshot is sorted before it is walked" if sorted_ else ("membership is tested order-independently" if order_free else
+               "the vacant-id snapshot is walked in FIFO order (ids come back in drop order, not ascending): after streams were dropped out of creation order the gap walk "
+               "lists vacant ids as live and drops live ones"))
+    else:
+        ctx.ob("R10.6", f"{kr}|reads-the-vacant-fifo", False, f"{fam[0]['file']}:{fam[0]['line']}" if fam else "", "the rebuild does not read the vacant FIFO")
+    for f in fx.fns:
+        if not any(blk["term"][0] == "Call" and (blk["term"][1].get("resolved") or blk["term"][1].get("f")) == kr for blk in f["blocks"]): continue
+        cb_ = Body(f); cd_ = D.Dag(cb_)
+        for (b, c) in cb_.calls:
+            if (c.get("resolved") or c.get("f")) != kr: continue
+            for a in c["args"][1:]:
+                e = strip_casts(cd_.expr(a))
+                def rmw_of(x):
+                    x = strip_casts(x)
+                    return x[1] if x[0] == "atomic" and x[1] in ("fetch_add", "fetch_sub") and x[2][-1:] == ("used_streams_count",) else None
+                ok = True; det = show(e)[:80]
+                if rmw_of(e):
+                    ok = False
+                elif e[0] in ("bin", "pair"):
+                    e2 = e[1] if e[0] == "pair" else e
+                    op = e2[1].rstrip("!~"); x, y = e2[2], e2[3]
+                    k_ = rmw_of(x) or rmw_of(y)
+                    if k_:
+                        one = strip_casts(y if rmw_of(x) else x) == ("const", 1)
+                        ok = one and ((k_ == "fetch_add" and op == "Add") or (k_ == "fetch_sub" and op == "Sub" and rmw_of(x)))
+                ctx.ob("R10.6", f"{f['key']}|rebuild-is-told-the-count-after-the-update", ok, cb_.loc(b),
+                       f"rebuild called with `{det}`; a count derived from the RMW on used_streams_count must be its answer +1 (create) / -1 (drop)")
+    ctx.floor("R10.6", 1)
     # ------------------------------------------------------------------ R10.5 an end request never reaches the stream that later re-uses the id
     S.check_cancel_not_repeated(ctx, "R10.5")
     ctx.floor("R10.5", 1)
